@@ -55,6 +55,10 @@ fn main() {
 		out.write(dir).expect("write results");
 		return;
 	}
+	if args.len() >= 2 && args[1] == "probe-transient" {
+		props::c09::probe_transient();
+		return;
+	}
 	if args.len() >= 2 && args[1] == "probe-chunking" {
 		std::panic::set_hook(Box::new(|_| {}));
 		props::c09::probe_chunking();
